@@ -44,6 +44,11 @@ pub fn features(nmax: usize) -> BoxedStrategy<(String, Rows)> {
                     ("with-constant-feature".to_string(), x)
                 }),
                 1 => vec(vec(unit(), p), n).prop_map(|x| ("continuous".to_string(), x)),
+                // zero-centred codes: even columns -1 / +1 flags, odd columns half-integers -1.5 .. 1.5, so that
+                // split thresholds of exactly 0.0 occur (a boundary value for any tolerance-based comparison)
+                2 => vec(vec(small_int(0, 3), p), n).prop_map(|x| {
+                    ("zero-centred-codes".to_string(), x.iter().map(|r| r.iter().enumerate().map(|(j, v)| if j % 2 == 0 { if *v >= 2.0 { 1.0 } else { -1.0 } } else { *v - 1.5 }).collect()).collect())
+                }),
             ]
         })
         .boxed()
@@ -354,7 +359,7 @@ pub fn property() -> Property {
     Property {
         id: "C05",
         quick_mult: 24,
-        rule: "training sets of 2..100 (quick) / 150 (thorough) rows and 1..6 features: per-feature permutations of distinct dyadic values (the 'distinct' class), small integers 0..3 (heavy repeats), a constant feature, continuous; 2..5 classes with label values from {-7,-1.5,0,3,42} (as they are, rescaled by 2^[-70,40], or five consecutive floating-point numbers) or real / small-integer targets; all three criteria; max_depth None or 1..8, min_samples_leaf 1..5, min_samples_split 0..8; the fitted node array is read from the serde serialisation and every training row is routed by the harness. non-trivial = the fitted tree has >= 3 internal nodes; distinct = distinct serialised case",
+        rule: "training sets of 2..100 (quick) / 150 (thorough) rows and 1..6 features: per-feature permutations of distinct dyadic values (the 'distinct' class), small integers 0..3 (heavy repeats), a constant feature, continuous, zero-centred codes (-1/+1 flags and half-integers: split thresholds of exactly 0); 2..5 classes with label values from {-7,-1.5,0,3,42} (as they are, rescaled by 2^[-70,40], or five consecutive floating-point numbers) or real / small-integer targets; all three criteria; max_depth None or 1..8, min_samples_leaf 1..5, min_samples_split 0..8; the fitted node array is read from the serde serialisation and every training row is routed by the harness. non-trivial = the fitted tree has >= 3 internal nodes; distinct = distinct serialised case",
         assumptions: vec![
             "greedy optimality and completeness are asserted for every regression tree, and for classification trees only when min_samples_leaf = 1 and feature values are pairwise distinct (as the statement says)".into(),
             "exact reproduction of the training labels is required when max_depth = None, min_samples_leaf = 1 and min_samples_split <= 1".into(),
